@@ -70,9 +70,17 @@ func (w *world) sendChunk(s *source, idx int, mut func(c *pb.Chunk, t *deliverTa
 	w.deliver(c, t)
 }
 
-func mutDid(c *pb.Chunk, t *deliverTag)    { c.DeploymentId++; t.did = true; t.desc = "foreign deployment id" }
-func mutBinVer(c *pb.Chunk, t *deliverTag) { c.BinVer++; t.binver = true; t.desc = "foreign bin version" }
-func mutFrom(c *pb.Chunk, t *deliverTag)   { c.From += 100; t.foreign = true; t.desc = "foreign sender" }
+func mutDid(c *pb.Chunk, t *deliverTag) {
+	c.DeploymentId++
+	t.did = true
+	t.desc = "foreign deployment id"
+}
+func mutBinVer(c *pb.Chunk, t *deliverTag) {
+	c.BinVer++
+	t.binver = true
+	t.desc = "foreign bin version"
+}
+func mutFrom(c *pb.Chunk, t *deliverTag) { c.From += 100; t.foreign = true; t.desc = "foreign sender" }
 
 func (w *world) mutCorrupt(s *source, off int, bit uint, cs int) func(c *pb.Chunk, t *deliverTag) {
 	return func(c *pb.Chunk, t *deliverTag) {
